@@ -1,5 +1,6 @@
 SPECIFICATION Spec
 CONSTANTS
+ EarlyTailError = FALSE
  MaxReinit = 0
  CountCalls = TRUE
  NW = 3  HdrSz = 2  TailSz = 2  TailOk = TRUE  Chunk = 2
